@@ -249,13 +249,14 @@ func c16Matrix(c *engine.Ctx) {
 		{"bases[b1]", drv.Config{Kind: drv.Mem, HostBases: []string{"b1.test"}}, []string{"b1.test"}},
 		{"bases[b1,b2]", drv.Config{Kind: drv.Mem, HostBases: []string{"b1.test", "b2.example"}}, []string{"b1.test", "b2.example"}},
 		{"bases[b1:port]", drv.Config{Kind: drv.Mem, HostBases: []string{"b1.test:9000"}}, []string{"b1.test:9000"}},
+		{"bases[B1.Test]", drv.Config{Kind: drv.Mem, HostBases: []string{"B1.Test"}}, []string{"B1.Test"}},
 		{"bases[.b1.]", drv.Config{Kind: drv.Mem, HostBases: []string{".b1.test."}}, []string{"b1.test"}},
 		{"bases[test,b1.test]", drv.Config{Kind: drv.Mem, HostBases: []string{"test", "b1.test"}}, []string{"test", "b1.test"}},
 		{"bases[b1.test,test]", drv.Config{Kind: drv.Mem, HostBases: []string{"b1.test", "test"}}, []string{"b1.test", "test"}},
 		{"bases[b1]+host-bucket", drv.Config{Kind: drv.Mem, HostBucket: true, HostBases: []string{"b1.test"}}, []string{"b1.test"}},
 		{"bases[b1]+host-bucket=false-given-last", drv.Config{Kind: drv.Mem, HostBases: []string{"b1.test"}, HostBucketOffLast: true}, []string{"b1.test"}},
 	}
-	hosts := []string{"aaa.b1.test", "aaa.b2.example", "aaa.b1.test:9000", "b1.test", "x.aaa.b1.test", "unrelated.org", ".b1.test", "aaa.b1.test.", "AAA.b1.test", "aaa", "bbb.b1.test", "aaa.xb1.test"}
+	hosts := []string{"aaa.b1.test", "aaa.b2.example", "aaa.b1.test:9000", "b1.test", "x.aaa.b1.test", "unrelated.org", ".b1.test", "aaa.b1.test.", "AAA.b1.test", "aaa", "bbb.b1.test", "aaa.xb1.test", "aaa.B1.Test"}
 	paths := []string{"/", "/k", "/k/", "//k", "/d/x/", "/aaa/k", "/aaa", "//aaa//k/", "/aaa/", "/bbb/k"}
 	// request targets whose escaping is not Go's default one (net/http then keeps URL.RawPath)
 	rawTargets := []string{"/k%3Dv", "/d%2Fx", "/aaa/k%3Dv", "/k%2Bp%40q%3Ar", "/k!*()"}
@@ -281,18 +282,29 @@ func c16Matrix(c *engine.Ctx) {
 		path string
 		r    route
 		raw  bool // path is a raw request target
+		// prime: Host of a request served by the same server just before (routing must not
+		// remember anything: the answer has to be the one a fresh server gives)
+		prime string
 	}
 	var jobs []job
 	for _, o := range opts {
 		for _, h := range hosts {
 			for _, p := range paths {
 				for _, r := range routes {
-					jobs = append(jobs, job{o, h, p, r, false})
+					jobs = append(jobs, job{o, h, p, r, false, ""})
 				}
 			}
 			for _, p := range rawTargets {
 				for _, r := range routes[:4] {
-					jobs = append(jobs, job{o, h, p, r, true})
+					jobs = append(jobs, job{o, h, p, r, true, ""})
+				}
+			}
+			for _, h1 := range hosts {
+				if h1 == h {
+					continue
+				}
+				for _, p := range []string{"/k", "/aaa/k"} {
+					jobs = append(jobs, job{o, h, p, routes[0], false, h1})
 				}
 			}
 		}
@@ -341,6 +353,10 @@ func c16Matrix(c *engine.Ctx) {
 		if jb.raw {
 			reqH.RawTarget, reqP.RawTarget = jb.path, eff
 		}
+		if jb.prime != "" {
+			hw.Do(drv.Req{Method: "GET", Path: "/k", Host: jb.prime})
+			hw.Do(drv.Req{Method: "GET", Path: "/aaa/k", Host: jb.prime})
+		}
 		rh := hw.Do(reqH)
 		rp := pw.Do(reqP)
 		c.Add(0, 1, 1, 2)
@@ -353,8 +369,12 @@ func c16Matrix(c *engine.Ctx) {
 		if matched {
 			hc = "label+base"
 		}
-		c.Report(&engine.Violation{Sig: sig("C16", "routing", jb.o.name, hc, "answers-differ"), World: jb.o.name,
-			History: []string{fmt.Sprintf("%s %s?%s Host: %s", jb.r.method, jb.path, jb.r.query, jb.host)},
+		what := "answers-differ"
+		if jb.prime != "" {
+			what = "answers-differ-after-a-request-for-another-host"
+		}
+		c.Report(&engine.Violation{Sig: sig("C16", "routing", jb.o.name, hc, what), World: jb.o.name,
+			History: []string{fmt.Sprintf("(primed with Host %q) %s %s?%s Host: %s", jb.prime, jb.r.method, jb.path, jb.r.query, jb.host)},
 			Msg:     fmt.Sprintf("option %s, Host %q, %s %s?%s: answered %s; the path-style request %s answers %s", jb.o.name, jb.host, jb.r.method, jb.path, jb.r.query, clip(ch, 200), eff, clip(cp, 200))})
 	})
 	// hosts that fall back to path-style: a whole multipart sequence must be
